@@ -451,7 +451,8 @@ def _unpack_filter_extensible_header(
 
     header_split.pop(0)
 
-    if header_split and header_split[0] == "dn":
+    # ABNF string literals are case insensitive, RFC 4515 uses ':DN' as well.
+    if header_split and header_split[0].lower() == "dn":
         for_dn = True
         header_split.pop(0)
 
